@@ -270,6 +270,14 @@ package drpcstream
 //@   ghost after:(*Signal).IsSet#1 wasTerm = ret
 //@   ghost entry putData = nil
 //@   ghost call:(*packetBuffer).Put putData = arg1
+//@   site (*Signal).Set#1 assert [C03.remote-error-send-eof]  arg1 == io.EOF && pkt.Kind == drpcwire.KindError
+//@   site (*Signal).Set#2 assert [C03.remote-cancel-signal]   arg1 == context.Canceled && pkt.Kind == drpcwire.KindCancel
+//@   site (*Signal).Set#3 assert [C03.remote-cancel-send-eof] arg1 == io.EOF && pkt.Kind == drpcwire.KindCancel
+//@   site (*Signal).Set#4 assert [C03.remote-close-recv-eof]  arg1 == io.EOF && pkt.Kind == drpcwire.KindClose
+//@   site (*Signal).Set#5 assert [C03.remote-closesend-recv-eof] arg1 == io.EOF && pkt.Kind == drpcwire.KindCloseSend
+//@   site (*Stream).terminateIfBothClosed assert [C03.remote-closesend-may-terminate] held(s.mu.Mutex) && pkt.Kind == drpcwire.KindCloseSend
+//@   site (*packetBuffer).Close#1 assert [C03.remote-close-wakes-receivers] arg1 == io.EOF && pkt.Kind == drpcwire.KindClose
+//@   site (*packetBuffer).Close#2 assert [C03.remote-closesend-wakes-receivers] arg1 == io.EOF && pkt.Kind == drpcwire.KindCloseSend
 //@   check [C02.foreign-noop]  pkt.ID.Stream != old(s.id.Stream) ==> err == nil && eventCount("call:(*Signal)") == 0 && eventCount("call:(*packetBuffer)") == 0 && eventCount("lock:") == 0
 //@   check [C03.term-noop]     pkt.ID.Stream == old(s.id.Stream) && wasTerm ==> err == nil && eventCount("call:(*Signal).Set") == 0 && eventCount("call:(*packetBuffer)") == 0 && eventCount("lock:") == 0
 //@   check [C01.message]       pkt.ID.Stream == old(s.id.Stream) && !wasTerm && pkt.Kind == drpcwire.KindMessage ==> err == nil && putData == pkt.Data && eventCount("call:(*packetBuffer).Put") == 1 && eventCount("call:(*Signal).Set") == 0
@@ -365,9 +373,14 @@ package drpcstream
 
 // checkRecvFlush: the first receive flushes whatever the invoke corked; a failing flush is reported.
 //@ func (*Stream).checkRecvFlush
-//@   props C01 C03
+//@   props C01 C03 C05
 //@   requires s.wr != nil && s.wr.w != nil
 //@   modifies allmem
+//@   ghost entry ferr = nil
+//@   ghost after:(*Stream).RawFlush ferr = ret
+//@   check [C01.first-receive-flushes] eventCount("once-run") == 1 ==> eventCount("call:(*Stream).RawFlush") >= 1
+//@   check [C05.flush-error-reported] ferr != nil ==> err == ferr
+//@   check [C01.no-error-without-flush] err != nil ==> err == ferr
 
 // MsgRecv: the lent buffer is used only between Get and Done, no lock is taken and nothing that can
 // block on the transport is called in that window; the finished check runs after the read lock is
